@@ -15,10 +15,11 @@
   (modelled by the `acq` enabling conditions); a theorem cannot exhibit a data race.
 -/
 import NdnVerif.C16.LemmasTime
+import NdnVerif.C16.Lemmas2
 import NdnVerif.Gen.C16LockFacts
 namespace Ndn.C16
 
-variable {σ L Res Op : Type}
+variable {σ σ2 L Res Op : Type}
 
 /-- **Linearizability under the lock discipline.**  After any execution: replaying the log of
     critical sections sequentially (atomic semantics) yields exactly the results the operations
@@ -86,6 +87,49 @@ theorem result_is_of_state_between_operations (body : Op → Body σ L Res) (hd 
   simp only [List.cons.injEq] at h2
   exact h2.1.symm
 
+/-! ## The lock structure of the real tables: RIB mutex (outer) + FIB RWMutex (inner) -/
+
+open Ndn.C16.Two in
+/-- **Linearizability of the two-lock system.**  Outer operations (route registration / removal /
+    face clean-up / RIB listing) hold the RIB mutex for their work on the RIB state σ1 and — still
+    holding it — install their FIB changes in ONE write critical section of the FIB RWMutex; inner
+    operations (lookups, listings, direct FIB and strategy commands) take only the FIB RWMutex.
+    For every number of threads and every schedule the two locks admit: replaying the log
+    (appended when an operation releases the lock that publishes its last effect) sequentially
+    with the ATOMIC semantics on (σ1, σ2) yields exactly the results returned; whenever no thread
+    is inside phase 1 / waiting for the FIB lock / inside the FIB write section the RIB state is the
+    sequential one, and whenever no writer is inside the FIB lock the FIB state is the sequential
+    one.  In particular a lookup never sees the FIB between two sub-steps of a RIB operation, and a
+    RIB listing never sees a RIB whose FIB changes are not installed yet. -/
+theorem two_lock_linearizable (body : Op → Body2 σ σ2 L Res) (wf : WF body) (a : σ) (b : σ2)
+    {c : Conf2 σ σ2 L Res Op} {evs : List (Ev2 Op)} (h : Exec2 body (init2 a b) evs c) :
+    (seqRun2 body (a, b) (c.log.map (·.1))).2 = c.log.map (·.2) ∧
+    ((∀ t, dirty1 (c.th t) = false) → c.s1 = (seqRun2 body (a, b) (c.log.map (·.1))).1.1) ∧
+    ((∀ t, holdsM2w body (c.th t) = false) → c.s2 = (seqRun2 body (a, b) (c.log.map (·.1))).1.2) := by
+  have hi := inv2_exec body wf a b h
+  exact ⟨hi.res, hi.s1free, hi.s2free⟩
+
+open Ndn.C16.Two in
+/-- at quiescence (every thread idle) both tables equal the sequential replay of the operations -/
+theorem two_lock_quiescent (body : Op → Body2 σ σ2 L Res) (wf : WF body) (a : σ) (b : σ2)
+    {c : Conf2 σ σ2 L Res Op} {evs : List (Ev2 Op)} (h : Exec2 body (init2 a b) evs c)
+    (hq : ∀ t, c.th t = .idle) :
+    (c.s1, c.s2) = (seqRun2 body (a, b) (c.log.map (·.1))).1 := by
+  have hl := two_lock_linearizable body wf a b h
+  have h1 := hl.2.1 (fun t => by rw [hq t]; rfl)
+  have h2 := hl.2.2 (fun t => by rw [hq t]; rfl)
+  rw [h1, h2]
+
+open Ndn.C16.Two in
+/-- mutual exclusion as the two locks provide it: at most one thread holds the RIB mutex, and a
+    writer inside the FIB lock excludes every other thread from it -/
+theorem two_lock_exclusion (body : Op → Body2 σ σ2 L Res) (wf : WF body) (a : σ) (b : σ2)
+    {c : Conf2 σ σ2 L Res Op} {evs : List (Ev2 Op)} (h : Exec2 body (init2 a b) evs c) :
+    (∀ t t', holdsM1 (c.th t) = true → holdsM1 (c.th t') = true → t = t') ∧
+    (∀ t, holdsM2w body (c.th t) = true → ∀ t', t' ≠ t → holdsM2 (c.th t') = false) := by
+  have hi := inv2_exec body wf a b h
+  exact ⟨hi.m1excl, hi.m2excl⟩
+
 /-! ## The hypothesis, tied to the source: the regenerated lock facts -/
 
 open Ndn.Gen.C16 in
@@ -97,7 +141,10 @@ def disciplinedFact (m : MethodFact) : Bool :=
   (m.lock != "RLock" || m.sharedWrites == 0) && m.returnsLive == 0 &&
   m.lockOps == 2 &&   -- the lock and its deferred unlock only: the critical section is never left early
   m.reentrant == 0 && -- no call back into a locking method of the same table (RWMutex is not re-entrant)
-  (m.typ == "RibTable" || !m.callsRib)
+  (m.typ == "RibTable" || !m.callsRib) &&
+  -- a RIB operation installs its FIB changes through at most ONE call outside any loop (one inner
+  -- critical section while the RIB mutex is still held); a FIB operation makes none
+  m.fibCallsInLoop == 0 && (if m.typ == "RibTable" then m.fibCalls ≤ 1 else m.fibCalls == 0)
 
 /-- the operations the property names must all be present in the table (a renamed or removed
     method would silently escape the check otherwise) -/
